@@ -85,6 +85,10 @@ func pools(quick bool) []poolDef {
 		always = append(always, "/"+s, "/{p0}/"+s)
 	}
 	ps = append(ps, poolDef{name: "fan51", patterns: []string{"/a", "/{p0}", "/*{c0}", "/a/{p1}", "/{p0}/a", "/{p0}/{p1}"}, paths: gen.Paths([]string{"a", "b", "0", "Z"}, 2), hosts: []string{""}, k: 2, always: always})
+	// overlap: at three consecutive levels a static child, a parameter child and a catch-all child
+	// (the walk records more skipped alternatives than the tree is deep)
+	ps = append(ps, poolDef{name: "overlap", patterns: []string{"/a", "/a/b", "/a/b/c", "/{p0}/b", "/a/{p1}/c", "/a/b/c/d"}, paths: gen.Paths([]string{"a", "b", "c", "z"}, 4), hosts: []string{""}, k: 2,
+		always: []string{"/{p0}", "/*{c0}", "/a/{p1}", "/a/*{c1}", "/a/b/{p2}", "/a/b/*{c2}"}})
 	return ps
 }
 
